@@ -3,8 +3,8 @@ package main
 import (
 	"fmt"
 	"go/token"
-	"os"
 	"go/types"
+	"os"
 	"sort"
 	"strings"
 
